@@ -420,8 +420,8 @@ def interpret(case, ctx):
 def s_case():
     @st.composite
     def case(draw):
-        n = draw(st.integers(1, 6))
-        ndc = draw(st.integers(1, 3))
+        n = draw(st.sampled_from([1, 2, 3, 3, 4, 4, 5, 5, 6, 6]))
+        ndc = draw(st.sampled_from([1, 2, 2, 3, 3]))
         slots = []
         for i in range(n):
             dc = i if i < ndc else draw(st.integers(0, ndc - 1))
